@@ -452,6 +452,32 @@ Close ==
   /\ UNCHANGED <<now, gca, equip, pkidx, bans, offset, live, impact, archive,
                  servers, migr, disk, seen>>
 
+(* Process crash: memory is lost, completed system calls survive.  Crash at *)
+(* an operation boundary is Crash; the two places where an operation is     *)
+(* more than one system call on a file expose an intermediate file state:   *)
+(* create-then-write of server.keys at first start and truncate-then-write  *)
+(* of gcaPubKey.dat at registration.                                        *)
+Crash ==
+  /\ Running /\ up' = "down"
+  /\ UNCHANGED <<now, gca, equip, pkidx, bans, offset, live, impact, archive,
+                 servers, migr, disk, seen>>
+
+CrashInRegister(k, sig) ==      \* after the truncation, before the write
+  /\ Serving /\ RegisterOK(k, sig)
+  /\ up' = "down" /\ disk' = [disk EXCEPT !.gcafile = "empty"]
+  /\ UNCHANGED <<now, gca, equip, pkidx, bans, offset, live, impact, archive,
+                 servers, migr, seen>>
+
+CrashInFirstStart ==           \* server.keys created, not yet written
+  /\ up = "down" /\ disk.keys = "absent"
+  /\ disk' = [disk EXCEPT !.keys = "empty"]
+  /\ UNCHANGED <<now, up, gca, equip, pkidx, bans, offset, live, impact, archive,
+                 servers, migr, seen>>
+
+(* C05: whatever the files look like after a crash, a valid registration is *)
+(* still possible unless one is recorded                                    *)
+StillRegistrable == LoadGCA(disk).avail => LoadGCA(disk).key \notin {"zero", NoKey}
+
 Tick(t) ==
   /\ now' = t
   /\ UNCHANGED <<up, gca, equip, pkidx, bans, offset, live, impact, archive,
